@@ -26,6 +26,6 @@ def replay(rec):
 
 LEVEL_TEXT = ("per call: the association is established only if the number of live acceptor associations (including the caller) is at "
               "most maximum_associations at the check, and over the limit the rejection is (transient, presentation, "
-              "local-limit-exceeded); the concurrency step is a stated assumption, hence level 'other'.")
+              "local-limit-exceeded); the concurrency step is a stated assumption, hence level 'other'. AE.active_associations selects exactly the live Association threads of the AE.")
 LEVEL_NOTE = "trusted: pyvc, z3; interleaving lemma not machine-checked."
 TECHNIQUE = "deductive (per-call): effect-trace contract on the limit check in ACSE._negotiate_as_acceptor; schedule quantifier not decided"
